@@ -62,6 +62,11 @@ CHECKS['C06'] = ('3/C06', 'Self-composition over the real clone code: A cloned n
                  'alone, real Material objects with property tables as uninterpreted functions; the solver decides whether the two explicit '
                  'steps can differ.  The object graph after the real clone methods and in a real Reactor is checked for shared stateful objects.')
 
+CHECKS['C12'] = ('3/C12', 'For each of the 120 accepted correlation combinations the real correlated-parameter routines run on a real bundle '
+                 'with a symbolic viscosity (bundle Re in (10, 1e6)); every regime combination of the three correlation families is a '
+                 'path; no path may end in an exception (68 combinations do in the transition regime: recorded known finding); mass '
+                 'conservation and signs of the split are SMT queries per path.  Pressure-gradient equalisation is outside (not built).')
+
 NOT_APPLICABLE = {
     'C16': ('No symbolic dimension for a solver: process schedules/multiprocessing/file output, bitwise IEEE determinism, and '
             'object-identity/type mutation of the input dictionary on `is None`/key-presence branches (DESIGN section 4).'),
